@@ -175,6 +175,21 @@ def run(ctx):
         body = lf_.body
         srcs = [c for c in body.calls() if any(glob_match('*::list_all_in_dir', n) for n in c.names())]
         tainted = {c.dest[0] for c in srcs}
+        # filters applied IN PLACE (`v.retain(..)`, `v.truncate(..)`): the local is the unfiltered listing only on the way to that call
+        INPLACE = ('*::retain', '*::retain_mut', '*::truncate', '*::drain', '*::dedup*', '*::split_off')
+        pre_blocks = {}
+        for c in body.calls():
+            if any(glob_match(q, n) for q in INPLACE for n in c.names()) and c.args and c.args[0][0] in ('copy', 'move') and c.target is not None:
+                base = set()
+                for (bi_, si_, pl_, rv_) in body.defs(c.args[0][1][0]):
+                    if si_ != 't' and rv_[0] == 'ref' and rv_[2]:
+                        base.add(rv_[1][0])
+                before = body.reach([0], removed={(c.bb, c.target)})
+                for l_ in base:
+                    pre_blocks[l_] = (pre_blocks[l_] & before) if l_ in pre_blocks else set(before)
+
+        def live(l_, bi_):
+            return l_ in tainted and (l_ not in pre_blocks or bi_ in pre_blocks[l_])
         raw = []          # (what, line)
         filters = 0
         changed = True
@@ -186,7 +201,7 @@ def run(ctx):
                     continue
                 for (ln, pl, rv) in b.stmts:
                     reads = [l for l, _ in rvalue_reads(rv)]
-                    if not any(l in tainted for l in reads):
+                    if not any(live(l, bi) for l in reads):
                         continue
                     if rv[0] == 'bin' and rv[1] in ('Lt', 'Le', 'Gt', 'Ge', 'Eq', 'Ne'):
                         other = [o for o in (rv[2], rv[3]) if not (o[0] in ('copy', 'move') and o[1][0] in tainted)]
@@ -209,7 +224,7 @@ def run(ctx):
                 if t[0] != 'call':
                     continue
                 c = t[1]
-                if not any(a_[0] in ('copy', 'move') and a_[1][0] in tainted for a_ in c.args):
+                if not any(a_[0] in ('copy', 'move') and live(a_[1][0], bi) for a_ in c.args):
                     continue
                 names = c.names()
                 if any(glob_match(q, n) for q in FILT for n in names):
